@@ -46,7 +46,7 @@ theorem seqRun_runHist (calls : List Call) (order : List Nat) (hv : ∀ j ∈ or
     in which the specification, run call after call from `a`, returns exactly the
     results the threads got and ends in a state the final directory simulates -/
 theorem linearizable_of_bracketed (c : LockClass) (i : Str) (calls : List Call)
-    (hb : ∀ x ∈ calls, Prog.Bracketed c i (Call.tprog cfg o x)) (hplain : ∀ x ∈ calls, CidArgPlain x)
+    (hb : ∀ x ∈ calls, Prog.BracketedU c i (Call.tprog cfg o x)) (hplain : ∀ x ∈ calls, CidArgPlain x)
     (st : Store) (log : List Eff) (a : Abs) (hs : Sim o st a) (ho : GoodOracle o) (fuel : Nat) (sched : List Nat) :
     let fin := (runSchedule fuel { w := calm st log, ts := (calls.map (Call.tprog cfg o)).map .fresh } sched 0).1
     fin.allFinished = true →
@@ -55,14 +55,15 @@ theorem linearizable_of_bracketed (c : LockClass) (i : Str) (calls : List Call)
       ∀ (j : Nat) (t : TState), fin.ts[j]? = some t →
         ∃ v, t = TState.finished v ∧ (j, v) ∈ order.zip (specHist cfg o (pick calls order) a).1 := by
   intro fin hall
-  have hb' : ∀ p ∈ calls.map (Call.tprog cfg o), p.Bracketed c i := by
+  have hb' : ∀ p ∈ calls.map (Call.tprog cfg o),
+      p.BracketedU c i ∧ p.Disc (fun h' (_ : Except Exc Val) => h' = []) [] := by
     intro p hp
     obtain ⟨x, hx, rfl⟩ := List.mem_map.mp hp
-    exact hb x hx
+    exact ⟨hb x hx, call_neutral cfg o x⟩
   have h0 : (calm st log).cnt c i = 0 := by
     unfold World.cnt calm calmL
     cases c <;> rfl
-  obtain ⟨order, hnd, hall', hw, hres⟩ := serial_schedule c i (calls.map (Call.tprog cfg o)) (calm st log) hb' h0 fuel sched hall
+  obtain ⟨order, hnd, hall', hw, hres⟩ := serial_schedule c i _ (calls.map (Call.tprog cfg o)) (calm st log) hb' h0 fuel sched hall
   have hlen : (calls.map (Call.tprog cfg o)).length = calls.length := List.length_map _
   have hv : ∀ j ∈ order, j < calls.length := fun j hj => hlen ▸ (hall' j).mp hj
   rw [seqRun_runHist cfg o calls order hv] at hw hres
@@ -80,6 +81,26 @@ theorem linearizable_of_bracketed (c : LockClass) (i : Str) (calls : List Call)
   · intro j t ht
     obtain ⟨v, hv', hmem⟩ := hres j t ht
     exact ⟨v, hv', by rw [← h1]; exact hmem⟩
+
+
+/-- the serialisation theorem for calls, with the lock discipline of every call
+    (`call_neutral`) supplied: any start world in which `(c, i)` is free -/
+theorem serial_of_bracketed (c : LockClass) (i : Str) (calls : List Call)
+    (hb : ∀ x ∈ calls, Prog.BracketedU c i (Call.tprog cfg o x)) (w0 : World) (h0 : i ∉ w0.lk.get c)
+    (fuel : Nat) (sched : List Nat) :
+    let progs := calls.map (Call.tprog cfg o)
+    let fin := (runSchedule fuel { w := w0, ts := progs.map .fresh } sched 0).1
+    fin.allFinished = true →
+    ∃ order : List Nat, order.Nodup ∧ (∀ j, j ∈ order ↔ j < calls.length) ∧
+      fin.w = (seqRun progs order w0).1 ∧
+      ∀ (j : Nat) (t : TState), fin.ts[j]? = some t → ∃ v, t = TState.finished v ∧ (j, v) ∈ (seqRun progs order w0).2 := by
+  intro progs fin hall
+  have hb' : ∀ p ∈ progs, p.BracketedU c i ∧ p.Disc (fun h' (_ : Except Exc Val) => h' = []) [] := by
+    intro p hp
+    obtain ⟨x, hx, rfl⟩ := List.mem_map.mp hp
+    exact ⟨hb x hx, call_neutral cfg o x⟩
+  obtain ⟨order, h1, h2, h3, h4⟩ := serial_schedule c i _ progs w0 hb' (List.count_eq_zero.mpr h0) fuel sched hall
+  exact ⟨order, h1, fun j => by rw [h2 j]; simp [progs], h3, h4⟩
 
 end
 end HS
